@@ -83,7 +83,7 @@ impl Sq {
         self.ods.concat()
     }
     /// Oracle for "the app version admits the square": share version 1 needs app >= 3; the
-    /// widths used here (<= 16) are below every version's size bound.
+    /// widths used here (<= 32) are below every version's size bound.
     pub fn admitted_by(&self, app: AppVersion) -> bool {
         self.layout != Layout::WithV1 || app.as_u64() >= 3
     }
